@@ -84,6 +84,31 @@ OutcomeWF == \A r \in RS1 \cup RSA \cup RSB :
                 /\ \A m \in MissingEdge(D, imports, r) \cup MissingOther(D, imports, r) : m[1] \in Norm(r).subs
                 /\ \A e \in Realised(D, imports, r) : \E s \in Norm(r).subs : From(r, e) \in D[s]
 
+\* C14: the semantics commute with injective component renamings - here the adversarial chain renaming the
+\* harness uses (every name a string prefix of the next) and a permutation of the model's own components
+Comps == UNION {SeqToSet(m) : m \in T}
+RhoChain == [c \in Comps |-> CASE c = "r" -> "a" [] c = "a" -> "ab" [] c = "x" -> "ab_" [] c = "b" -> "ab_c"
+                                 [] c = "c" -> "ab_c1" [] c = "y" -> "ab_c1a" [] c = "z" -> "ab_c1ab"]
+RhoPerm  == [c \in Comps |-> CASE c = "r" -> "r" [] c = "a" -> "b" [] c = "b" -> "c" [] c = "c" -> "a"
+                                 [] c = "x" -> "z" [] c = "y" -> "x" [] c = "z" -> "y"]
+DRen(rho) == Den(RenNames(rho, T), RenFilters(rho, Filters))
+DChain == DRen(RhoChain)
+DPerm  == DRen(RhoPerm)
+\* constant-level tables (TLC evaluates them once): the renamed rule of every rule of the space
+RuleChain == [r \in RS1 \cup RSA |-> RenRule(RhoChain, r)]
+RulePerm  == [r \in RS1 \cup RSA |-> RenRule(RhoPerm, r)]
+RenamingInvariant ==
+    /\ Injective(RhoChain) /\ Injective(RhoPerm)
+    /\ LET IC == RenEdges(RhoChain, imports)
+           IP == RenEdges(RhoPerm, imports) IN
+       \A r \in RS1 \cup RSA :
+          LET o == Outcome(D, imports, r) IN
+          /\ Outcome(DChain, IC, RuleChain[r]) = RenOutcome(RhoChain, o)
+          /\ Outcome(DPerm, IP, RulePerm[r]) = RenOutcome(RhoPerm, o)
+\* ... and a NON-injective renaming does change outcomes somewhere (vacuity guard for the invariant above):
+\* collapsing the siblings a and b makes 'a should not import b' speak about a itself
+RhoCollapse == [c \in Comps |-> IF c = "b" THEN "a" ELSE c]
+
 \* (R) emission: one JSON line per distinct state
 SetToSeqS(S) == SetToSeq(S)
 EmitState == EMIT => PrintT("STATE " \o ToJson([imports |-> SetToSeqS(imports), modules |-> SetToSeqS(T)]))
